@@ -178,4 +178,195 @@ Proof.
   - exists x'. split; [exact E|]. repeat split; auto. intros r Hr. apply P'. lia.
 Qed.
 
+(* the pointer walk  Lc = L + (n+1)*c; Lc += n  (r-c times)  of ldl_upper / llt_upper reaches cell (r,c) *)
+Lemma idx_diag c : ((n + 1) * c = n * c + c)%nat.
+Proof. lia. Qed.
+
+Lemma idx_walk c r : (c <= r)%nat -> ((n + 1) * c + n * (r - c) = n * r + c)%nat.
+Proof.
+  intros H. rewrite Nat.mul_sub_distr_l.
+  assert (n * c <= n * r)%nat by (apply Nat.mul_le_mono_l; auto). lia.
+Qed.
+
+(* D L^T x = y : a_real_ldl_upper(_) *)
+Definition ldl_upper_gen (L x : list R) : option (list R) :=
+  for_down n (fun c x =>
+    do xc <- rd x (ix c); do d <- rd L ((n + 1) * c);
+    do x1 <- wr x (ix c) (div RO xc d);
+    for_range (c + 1) n (fun r x =>
+      do xc <- rd x (ix c); do l <- rd L ((n + 1) * c + n * (r - c)); do xr <- rd x (ix r);
+      wr x (ix c) (sub RO xc (mul RO l xr))) x1) x.
+
+Lemma ldl_upper_gen_spec (L x : list R) :
+  length L = (n * n)%nat -> vec_ok x ->
+  exists x', ldl_upper_gen L x = Some x' /\ length x' = length x /\
+    (forall k, off_vec k -> nth k x' 0 = nth k x 0) /\
+    forall c, (c < n)%nat ->
+      vg x' c = vg x c / mg n L c c - isum (fun r => mg n L r c * vg x' r) (c + 1) n.
+Proof.
+  intros LL Hok. unfold ldl_upper_gen.
+  destruct (for_down_inv
+              (fun k (x' : list R) =>
+                 length x' = length x /\ (forall j, off_vec j -> nth j x' 0 = nth j x 0) /\
+                 (forall c, (c < k)%nat -> vg x' c = vg x c) /\
+                 (forall c, (k <= c < n)%nat ->
+                    vg x' c = vg x c / mg n L c c - isum (fun r => mg n L r c * vg x' r) (c + 1) n))
+              (fun c x =>
+                 do xc <- rd x (ix c); do d <- rd L ((n + 1) * c);
+                 do x1 <- wr x (ix c) (div RO xc d);
+                 for_range (c + 1) n (fun r x =>
+                   do xc <- rd x (ix c); do l <- rd L ((n + 1) * c + n * (r - c)); do xr <- rd x (ix r);
+                   wr x (ix c) (sub RO xc (mul RO l xr))) x1) n x) as (x' & E & L' & F' & _ & P').
+  - repeat split; auto. intros; lia.
+  - intros k x1 Hk (L1 & F1 & U1 & D1).
+    assert (Hok1 : vec_ok x1) by (eapply vec_ok_len; eauto).
+    assert (Hd : rd L ((n + 1) * k) = Some (mg n L k k)) by (rewrite idx_diag; apply (rd_mg n); auto).
+    rewrite (rd_some 0) by (apply Hok1; auto).
+    rewrite Hd.
+    rewrite wr_some by (apply Hok1; auto).
+    set (x2 := upd x1 (ix k) (div RO (nth (ix k) x1 0) (mg n L k k))).
+    assert (L2 : length x2 = length x1) by (unfold x2; now rewrite upd_length).
+    assert (Hok2 : vec_ok x2) by (eapply vec_ok_len; eauto).
+    destruct (axpy_loop L (fun r => ((n + 1) * k + n * (r - k))%nat) (fun r => mg n L r k) k (k + 1) n x2)
+      as (x3 & E3 & L3 & F3 & V3); auto.
+    + intros r Hr. rewrite idx_walk by lia. apply (rd_mg n); auto; lia.
+    + intros r Hr. lia.
+    + exists x3. split; [exact E3|]. split; [congruence|].
+      assert (Hfr : forall c, (c < n)%nat -> c <> k -> vg x3 c = vg x1 c).
+      { intros c Hc Nc. rewrite (vg_frame x2 x3 k c) by auto. unfold vg, x2.
+        rewrite nth_upd_other; [reflexivity|]. intros Ek. apply ix_inj in Ek; auto. }
+      split; [|split].
+      * intros j Hj. rewrite F3 by (apply Hj; auto). unfold x2.
+        rewrite nth_upd_other by (apply Hj; auto). auto.
+      * intros c Hc. rewrite Hfr by lia. apply U1. lia.
+      * intros c Hc. destruct (Nat.eq_dec c k) as [->|N].
+        -- rewrite V3.
+           assert (Hx2k : vg x2 k = vg x k / mg n L k k).
+           { unfold vg, x2. rewrite nth_upd_same by (apply Hok1; auto). fold (vg x1 k).
+             rewrite U1 by lia. reflexivity. }
+           rewrite Hx2k. f_equal.
+           apply isum_ext. intros r Hr. rewrite (vg_frame x2 x3 k r) by (auto; lia). reflexivity.
+        -- rewrite Hfr by lia. rewrite D1 by lia. f_equal.
+           apply isum_ext. intros r Hr. rewrite Hfr by lia. reflexivity.
+  - exists x'. split; [exact E|]. repeat split; auto. intros c Hc. apply P'. lia.
+Qed.
+
+(* L y = b with a general (non-unit) diagonal: a_real_llt_lower(_) *)
+Definition llt_lower_gen (L y : list R) : option (list R) :=
+  for_range 0 n (fun r y =>
+    do y1 <- for_range 0 r (fun c y =>
+               do yr <- rd y (ix r); do l <- rd L (n * r + c); do yc <- rd y (ix c);
+               wr y (ix r) (sub RO yr (mul RO l yc))) y;
+    do yr <- rd y1 (ix r); do l <- rd L (n * r + r);
+    wr y1 (ix r) (div RO yr l)) y.
+
+Lemma llt_lower_gen_spec (L y : list R) :
+  length L = (n * n)%nat -> vec_ok y ->
+  exists y', llt_lower_gen L y = Some y' /\ length y' = length y /\
+    (forall k, off_vec k -> nth k y' 0 = nth k y 0) /\
+    forall r, (r < n)%nat ->
+      vg y' r = (vg y r - isum (fun c => mg n L r c * vg y' c) 0 r) / mg n L r r.
+Proof.
+  intros LL Hok. unfold llt_lower_gen.
+  destruct (for_range_inv
+              (fun k (y' : list R) =>
+                 length y' = length y /\ (forall j, off_vec j -> nth j y' 0 = nth j y 0) /\
+                 (forall r, (k <= r < n)%nat -> vg y' r = vg y r) /\
+                 (forall r, (r < k)%nat ->
+                    vg y' r = (vg y r - isum (fun c => mg n L r c * vg y' c) 0 r) / mg n L r r))
+              0 n
+              (fun r y =>
+                 do y1 <- for_range 0 r (fun c y =>
+                            do yr <- rd y (ix r); do l <- rd L (n * r + c); do yc <- rd y (ix c);
+                            wr y (ix r) (sub RO yr (mul RO l yc))) y;
+                 do yr <- rd y1 (ix r); do l <- rd L (n * r + r);
+                 wr y1 (ix r) (div RO yr l)) y) as (y' & E & L' & F' & _ & P').
+  - lia.
+  - repeat split; auto. intros; lia.
+  - intros k y1 [_ Hk] (L1 & F1 & U1 & D1).
+    destruct (axpy_loop L (fun c => (n * k + c)%nat) (fun c => mg n L k c) k 0 k y1) as (y2 & E2 & L2 & F2 & V2); auto.
+    + intros c Hc. apply (rd_mg n); auto; lia.
+    + intros c Hc. lia.
+    + eapply vec_ok_len; eauto.
+    + rewrite E2.
+      destruct (div_at L (n * k + k)%nat (mg n L k k) k y2) as (y3 & E3 & L3 & F3 & V3); auto.
+      * apply (rd_mg n); auto.
+      * eapply vec_ok_len; [|exact Hok]. congruence.
+      * exists y3. split; [exact E3|]. split; [congruence|].
+        assert (Hfr : forall c, (c < n)%nat -> c <> k -> vg y3 c = vg y1 c).
+        { intros c Hc Nc. rewrite (vg_frame y2 y3 k c), (vg_frame y1 y2 k c) by auto. reflexivity. }
+        split; [|split].
+        -- intros j Hj. rewrite F3, F2 by (apply Hj; auto). auto.
+        -- intros r Hr. rewrite Hfr by lia. apply U1. lia.
+        -- intros r Hr. destruct (Nat.eq_dec r k) as [->|N].
+           ++ rewrite V3, V2. rewrite U1 by lia. f_equal. f_equal.
+              apply isum_ext. intros c Hc. rewrite Hfr by lia. reflexivity.
+           ++ rewrite Hfr by lia. rewrite D1 by lia. f_equal. f_equal.
+              apply isum_ext. intros c Hc. rewrite Hfr by lia. reflexivity.
+  - exists y'. split; [exact E|]. repeat split; auto.
+Qed.
+
+(* L^T x = y : a_real_llt_upper(_) *)
+Definition llt_upper_gen (L x : list R) : option (list R) :=
+  for_down n (fun c x =>
+    do lcc <- rd L ((n + 1) * c);
+    do x1 <- for_range (c + 1) n (fun r x =>
+               do xc <- rd x (ix c); do l <- rd L ((n + 1) * c + n * (r - c)); do xr <- rd x (ix r);
+               wr x (ix c) (sub RO xc (mul RO l xr))) x;
+    do xc <- rd x1 (ix c);
+    wr x1 (ix c) (div RO xc lcc)) x.
+
+Lemma llt_upper_gen_spec (L x : list R) :
+  length L = (n * n)%nat -> vec_ok x ->
+  exists x', llt_upper_gen L x = Some x' /\ length x' = length x /\
+    (forall k, off_vec k -> nth k x' 0 = nth k x 0) /\
+    forall c, (c < n)%nat ->
+      vg x' c = (vg x c - isum (fun r => mg n L r c * vg x' r) (c + 1) n) / mg n L c c.
+Proof.
+  intros LL Hok. unfold llt_upper_gen.
+  destruct (for_down_inv
+              (fun k (x' : list R) =>
+                 length x' = length x /\ (forall j, off_vec j -> nth j x' 0 = nth j x 0) /\
+                 (forall c, (c < k)%nat -> vg x' c = vg x c) /\
+                 (forall c, (k <= c < n)%nat ->
+                    vg x' c = (vg x c - isum (fun r => mg n L r c * vg x' r) (c + 1) n) / mg n L c c))
+              (fun c x =>
+                 do lcc <- rd L ((n + 1) * c);
+                 do x1 <- for_range (c + 1) n (fun r x =>
+                            do xc <- rd x (ix c); do l <- rd L ((n + 1) * c + n * (r - c)); do xr <- rd x (ix r);
+                            wr x (ix c) (sub RO xc (mul RO l xr))) x;
+                 do xc <- rd x1 (ix c);
+                 wr x1 (ix c) (div RO xc lcc)) n x) as (x' & E & L' & F' & _ & P').
+  - repeat split; auto. intros; lia.
+  - intros k x1 Hk (L1 & F1 & U1 & D1).
+    assert (Hok1 : vec_ok x1) by (eapply vec_ok_len; eauto).
+    assert (Hd : rd L ((n + 1) * k) = Some (mg n L k k)) by (rewrite idx_diag; apply (rd_mg n); auto).
+    rewrite Hd.
+    destruct (axpy_loop L (fun r => ((n + 1) * k + n * (r - k))%nat) (fun r => mg n L r k) k (k + 1) n x1)
+      as (x2 & E2 & L2 & F2 & V2); auto.
+    + intros r Hr. rewrite idx_walk by lia. apply (rd_mg n); auto; lia.
+    + intros r Hr. lia.
+    + rewrite E2.
+      assert (Hok2 : vec_ok x2) by (eapply vec_ok_len; eauto).
+      rewrite (rd_some 0) by (apply Hok2; auto).
+      rewrite wr_some by (apply Hok2; auto).
+      match goal with |- context [Some (upd x2 ?i ?v)] => set (x3 := upd x2 i v) end.
+      exists x3. split; [reflexivity|]. split; [unfold x3; rewrite upd_length; congruence|].
+      assert (Hfr : forall c, (c < n)%nat -> c <> k -> vg x3 c = vg x1 c).
+      { intros c Hc Nc. unfold vg, x3. rewrite nth_upd_other by (intros Ek; apply ix_inj in Ek; auto).
+        apply (vg_frame x1 x2 k c); auto. }
+      split; [|split].
+      * intros j Hj. unfold x3. rewrite nth_upd_other by (apply Hj; auto).
+        rewrite F2 by (apply Hj; auto). auto.
+      * intros c Hc. rewrite (Hfr c) by lia. apply U1. lia.
+      * intros c Hc. destruct (Nat.eq_dec c k) as [->|N].
+        -- assert (Hx3k : vg x3 k = vg x2 k / mg n L k k).
+           { unfold vg, x3. rewrite nth_upd_same by (apply Hok2; auto). reflexivity. }
+           rewrite Hx3k, V2. rewrite U1 by lia. f_equal. f_equal.
+           apply isum_ext. intros r Hr. rewrite (Hfr r) by lia. reflexivity.
+        -- rewrite (Hfr c) by lia. rewrite D1 by lia. f_equal. f_equal.
+           apply isum_ext. intros r Hr. rewrite (Hfr r) by lia. reflexivity.
+  - exists x'. split; [exact E|]. repeat split; auto. intros c Hc. apply P'. lia.
+Qed.
+
 End Solve.
